@@ -670,10 +670,13 @@ def run_case(case, ctx):
                         ctx.check("scalars-invariant", abs(v - numpy.trace(x.ref @ r.ref)), 1e-10 * scale(x.ref) * n, {"what": "tr(A rho)", "level": level})
             elif ev == "APPLY":
                 # (operator-form tensors take K^T for the adjoint of their - by construction real - operators: their action is not
-                #  exercised while a context with a unitary, non-orthogonal transformation is open)
-                cplx_open = any(numpy.iscomplexobj(x.ref) for x in active)
+                #  exercised while a context with a unitary, non-orthogonal transformation is open, nor for forms whose operators - created inside
+                #  such a context - are not real in the site basis)
+                # (an operator that has been through such a context is stored as a complex array afterwards; the eigenvectors
+                #  numpy returns for it carry arbitrary phases, so the transformation - not the operator - tells)
+                cplx_open = float(numpy.max(numpy.abs(numpy.imag(Stot)))) > 1e-12
                 ts = [x for x in objs if x.kind in ("SuperOperator", "LindbladTensor", "LindbladOperators") and x.protected_S is None
-                      and not (cplx_open and x.kind == "LindbladOperators")]
+                      and not (x.kind == "LindbladOperators" and (cplx_open or float(numpy.max(numpy.abs(numpy.imag(x.ref)))) > 1e-12))]
                 rhos = [x for x in objs if x.kind in ("ReducedDensityMatrix", "DensityMatrix") and x.protected_S is None]
                 if ts and rhos:
                     T, r = ts[int(rng.integers(len(ts)))], rhos[int(rng.integers(len(rhos)))]
@@ -692,7 +695,10 @@ def run_case(case, ctx):
                         site = numpy.tensordot(T.ref, r.ref)
                     exp = tr_op(site, Stot)
                     ctx.check("scalars-invariant", float(numpy.max(numpy.abs(got - exp))), 1e-9 * scale(exp) * n * n,
-                              {"what": "action of a tensor on a state, back-transformed", "tensor": T.kind, "level": level})
+                              {"what": "action of a tensor on a state, back-transformed", "tensor": T.kind, "level": level, "complex_context_open": bool(cplx_open),
+                               "stored_dtype": str(getattr(T.obj, "_Km", getattr(T.obj, "_data", numpy.zeros(1))).dtype), "Stot_imag": float(numpy.max(numpy.abs(numpy.imag(Stot)))),
+                               "active": [(x.kind, bool(numpy.iscomplexobj(x.ref))) for x in active], "ref_imag": float(numpy.max(numpy.abs(numpy.imag(T.ref)))), "state_dtype": str(numpy.asarray(r.obj._data).dtype),
+                               "events": events[-8:]})
                     # the result is a managed object created inside: it must survive the exits
                     objs.append(Obj(r.kind, res, site.copy()))
             elif ev == "PROPAGATE":
